@@ -12,30 +12,51 @@ Four families of units, each enumerated completely (DESIGN section 4, C05):
  compound unit   one- and two-atom compounds over the class-representative alphabet x counts x
      densities x energies (fixed grid + the two nodes bracketing every sharp absorption edge of the
      atoms present + out of range), with the property's relations as edges.
+ reuse unit   the caller's objects (a Formula carrying its own density, an {atom: count} dictionary, text, energy /
+     wavelength / angle arrays) used for two calculations in a row: every call of a small alphabet (function x object
+     x density keyword x probe) alone in a fresh process, then every ordered pair on the same objects, optionally
+     with an in-place update by the caller in between; after every call the caller's objects must be what they were
+     and the result must be right for the density, composition and energies of THAT call.
 """
 import math
 import numpy as np
 from ..common import Acc, load_pt, chunks, rotate, MachineryError
 from ..ref import xray as rx
+from ..histmc import in_fork
 
 META = dict(
     level="model_checking", engine="E1",
     technique="complete sweep of the 92 scattering-factor tables and 211 form-factor entries plus bounded-exhaustive "
-              "exploration of a compound graph (edges = the property's relations) on the real implementation, against "
+              "exploration of a compound graph (edges = the property's relations) and of all two-call histories on "
+              "reused caller-side objects, on the real implementation, against "
               "independent readers and hand-written equations",
     rule=("a case is one (atom, query point, route) of a table, one (entry, atom, Q) of the form-factor file, or one "
           "(compound, density, energy) with its outgoing edges (wavelength route, scalar call, density x k, isotope "
           "substitution, refraction, mirror); cases are distinct by construction (points, atoms and compounds are "
-          "enumerated without repetition); non-trivial = the expected value is a finite number (in-range query)"),
+          "enumerated without repetition); non-trivial = the expected value is a finite number (in-range query).  "
+          "REUSE: a call = (xray_sld | index_of_refraction | mirror_reflectivity) x (Formula object with its own "
+          "density | dictionary | text with '@density') x (own density | density=a | density=b | natural_density=c) x "
+          "(scalar energy | the caller's energy array | the caller's wavelength array); every call alone in its own "
+          "forked process; every history (first call, optional update by the caller: formula.density = x, a "
+          "count in the dictionary, new contents of the energy / wavelength array, or going on with g = 2*formula and "
+          "g.density = x (n*f copies f with whatever is attached to it); second call) on fresh objects; "
+          "after every call the Formula (structure with atoms by identity, density, name, text), the dictionary and "
+          "the energy, wavelength and angle arrays are compared with the caller's model; results are judged by the "
+          "same reference equations for the density / composition / energies of that call (mirror: inside [0, 1] and "
+          "equal to the question asked with fresh equal objects).  The table, f0 and compound units also compare the "
+          "arrays / dictionaries they pass with their contents before the calls"),
     bound=dict(
         quick="all 92 tables: every node + 3 points per segment (0.25, 0.5, 0.75) + range probes, 4 routes, every "
               "ion, every isotope and isotope ion; all 211 f0 entries x 8 Q x every reaching atom; 17-atom alphabet: "
               "all singles x 2 counts, all unordered pairs x 3 count patterns, all triples over a 7-atom sub-alphabet; "
               "x 3 densities x "
-              "(5 grid energies + 2 out of range + edge-bracketing nodes of the atoms present)",
+              "(5 grid energies + 2 out of range + edge-bracketing nodes of the atoms present); reuse: 6 compounds "
+              "(isotope, isotope ion, single atom, fractional count, triple) x 10512 histories (48 first calls x 72 "
+              "second calls x the caller updates that concern the second call), 72 calls alone",
         thorough="same tables with 5 points per segment (0.01, 0.25, 0.5, 0.75, 0.99); same f0 sweep; compounds: "
                  "singles x 3 counts, pairs x 4 count patterns, all triples over the 17-atom alphabet x 2 count "
-                 "patterns; x 5 densities x (24 grid energies + 2 out of range + edge nodes)"),
+                 "patterns; x 5 densities x (24 grid energies + 2 out of range + edge nodes); reuse: the same 10512 "
+                 "histories for all singles and pairs over the 7-atom sub-alphabet and the quick compounds (32)"),
     assumptions=[
         "the .nff and f0_WaasKirf.dat texts are the source of truth (loader errors are detected, not data errors)",
         "physical constants and neutral atom masses / element densities are read from the library (C06)",
@@ -44,6 +65,15 @@ META = dict(
         "points there are not judged against the table (edge relations that do not need the table still are)",
         "a node whose keV value depends on the eV->keV rounding is judged with both one-sided limits accepted; the "
         "same for every query that went through wavelength (h c / (h c / E) != E by an ulp)",
+        "'the caller's object is unaltered' is judged on what a caller can read (Formula structure with atoms by identity, "
+        "density, name, text; dictionary items; array bytes), not on private attributes the library may attach",
+        "a density= / natural_density= keyword given together with a Formula object is the density of that call "
+        "('Mass density of the compound, or None for default'); a dictionary is only used with a density keyword, "
+        "text with '@density' only without one; text is only used if the parser reads it as the compound meant (C01)",
+        "mirror_reflectivity in a history is compared with the same function on fresh equal objects (the statement "
+        "only bounds it to [0, 1]); within one history worker earlier histories ran in the same process, so a "
+        "violation is named after the last two calls although something older may be the cause (the worker stops at "
+        "its first violation); X-ray functions have no table= argument: private tables are C10 / C20",
         "ions without Cromer-Mann entry are outside the statement; ion.xray.sld (number density of a charged atom) "
         "and elements without density are not judged",
     ],
@@ -300,6 +330,7 @@ def table_unit(arg):
     idx = [i for i in range(len(pts)) if good[i]]
     Ev = np.array([E[i] for i in idx])
     Wv = np.array([wl[i] for i in idx])
+    arrays_before = (Ev.tobytes(), Wv.tobytes())
     vec_e = None
     for route, kw, cl in (("energy-vector", dict(energy=Ev), strict), ("wavelength-vector", dict(wavelength=Wv), fuzzy)):
         acc.evaluations += 1
@@ -361,6 +392,15 @@ def table_unit(arg):
                 acc.violation(sig, dict(unit="table", stem=stem, atom=atom_code(spec), route="energy-vector"),
                               expected="the factors of %s: %r" % (sym, [fl(vec_e[0][0]), fl(vec_e[1][0])]),
                               observed=obs, standalone=code)
+    if (Ev.tobytes(), Wv.tobytes()) != arrays_before:
+        which = "energy" if Ev.tobytes() != arrays_before[0] else "wavelength"
+        acc.violation("argument-altered:scattering_factors:%s-array" % which,
+                      dict(unit="table", stem=stem, atom=sym, route="%s-vector" % which),
+                      expected="the caller's array as it was", observed="the array passed as %s= was changed" % which,
+                      standalone="import numpy, periodictable as pt\nx = numpy.array(%r)\ny = x.copy()\n"
+                                 "pt.%s.xray.scattering_factors(%s=x)\nprint((x == y).all(), x, y)\n"
+                                 % (list((Ev if which == "energy" else Wv)[:3]), sym, which))
+        return acc
     if sweep_clean:
         element_sld(pt, xsf, consts, t, el, sym, acc)
     return acc
@@ -438,6 +478,7 @@ def f0_unit(ent, pt, cm, acc):
     ref = [rx.f0_reference(a, c, b, Q) for Q in Q_GRID]
     scale = [f0_terms_scale(a, c, b, Q) for Q in Q_GRID]
     Qv = np.array(Q_GRID)
+    Qv_before = Qv.tobytes()
     acc.count("f0_entries")
 
     def check(getter, code, who, klass, alias=False):
@@ -482,6 +523,11 @@ def f0_unit(ent, pt, cm, acc):
                 raise ValueError("shape %r for %d Q values" % (vv.shape, len(Q_GRID)))
         except Exception as e:
             acc.violation("f0-vector-raises", case, vals, exc(e), standalone=code % ("numpy.array(%r)" % (list(Q_GRID),)))
+            return False
+        if Qv.tobytes() != Qv_before:
+            acc.violation("argument-altered:f0:Q-array", case, list(Q_GRID), Qv.tolist(),
+                          standalone=code % ("numpy.array(%r)" % (list(Q_GRID),)))
+            Qv[:] = Q_GRID
             return False
         for i in range(len(Q_GRID)):
             if not ok1(vv[i], vals[i], scale[i], 1e-12):
@@ -642,8 +688,25 @@ def compound_unit(cmpd, pt, xsf, consts, tier, acc, broken):
     except Exception as e:
         raise MachineryError("cannot build %s: %s" % (label, exc(e)))
     acc.count("compounds")
+    owned = lambda: (tuple((id(k), v) for k, v in cd.items()), Ev.tobytes(), Wv.tobytes())
+    owned_before = owned()
+
+    def intact(case):
+        """The dictionary and the arrays handed to the library in all calls so far are what they were."""
+        now = owned()
+        if now == owned_before:
+            return True
+        what = "dict" if now[0] != owned_before[0] else "energy-array" if now[1] != owned_before[1] else "wavelength-array"
+        acc.violation("argument-altered:compound-calls:%s" % what, case, "the caller's objects as they were",
+                      "changed: %s" % what,
+                      standalone=head + "E = numpy.array(%r)\nc = %s\nxsf.xray_sld(c, density=1.0, energy=E)\n"
+                                        "xsf.mirror_reflectivity(c, density=1.0, energy=E, angle=numpy.array([0.1, 1.0]))\n"
+                                        "print(c, E)\n" % (Es, code_c))
+        return False
     for d in tier["dens"]:
         case = dict(unit="compound", compound=[[list(a), c] for a, c in cmpd], label=label, density=d)
+        if not intact(case):
+            return
 
         def V(sig, expected, observed, call, **extra):
             acc.violation(sig, dict(case, **extra), expected, observed,
@@ -799,6 +862,8 @@ def compound_unit(cmpd, pt, xsf, consts, tier, acc, broken):
                   [fl(r_nk[j]), fl(ir_nk[j])], [fl(r_ik[j]), fl(ir_ik[j])],
                   "xsf.xray_sld(%s, natural_density=%r, energy=E), xsf.xray_sld(%s, natural_density=%r, energy=E)"
                   % (ncode, d, code_c, d), energy_keV=Es[j])
+    if not intact(dict(unit="compound", compound=[[list(a), c] for a, c in cmpd], label=label, density=tier["dens"][-1])):
+        return
     acc.sample(dict(unit="compound", label=label, densities=list(tier["dens"]), energies=len(Es)))
 
 
@@ -932,6 +997,437 @@ def compound_shard(arg):
     return acc
 
 
+# ------------------------------------------------------------------------------------- reuse unit
+# The caller's objects are used for several calculations.
+#   A call    = (function, target object, density keyword, probe).
+#   A history = call 1 on fresh objects, an optional in-place update by the caller, call 2 on the same objects.
+# Targets: F a Formula object that carries its own density, D an {atom: count} dictionary, S text with '@density'.
+# Probes: scalar energy, the caller's energy array, the caller's wavelength array (mirror: + the caller's angles).
+# After every call every caller-owned object must be what the caller made it; every result is judged with the
+# reference equations for the density, composition and energies of THAT call.
+R_OWN, R_CALLER = 2.65, 1.9
+R_DENS = (("own", None), ("density", 0.7), ("density", 5.0), ("natural_density", 1.3))
+R_FIRST_FNS = ("sld", "mirror")               # mirror_reflectivity -> index_of_refraction -> xray_sld: all three layers
+R_SECOND_FNS = ("sld", "index", "mirror")
+R_PROBES = ("E-scalar", "E-array", "W-array")
+R_ES = 8.04
+R_E, R_E_ALT = (1.0, 8.04, 31.0), (17.4, 0.03, 29.0)
+R_WE, R_WE_ALT = (8.04, 17.4, 1.0), (29.0, 1.0, 0.03)       # the energies the wavelength array stands for
+R_ANGLES = (0.1, 0.5, 5.0)
+R_COMPOUNDS_QUICK = (
+    ((("Si", None, 0), 1), (("O", 18, 0), 2)),
+    ((("H", 2, 0), 2), (("Fe", 56, 2), 3)),
+    ((("Au", None, 0), 1),),
+    ((("U", None, 0), 0.5), (("Si", None, 0), 1)),
+    ((("H", None, 0), 1), (("Au", None, 0), 2)),
+    ((("Fe", 56, 2), 1), (("O", 18, 0), 1), (("H", None, 0), 2)),
+)
+
+
+def reuse_compounds(quick):
+    if quick:
+        return list(R_COMPOUNDS_QUICK)
+    out = [((a, 1),) for a in SUB_ALPHABET]
+    n = len(SUB_ALPHABET)
+    for i in range(n):
+        for j in range(i + 1, n):
+            out.append(((SUB_ALPHABET[i], 2), (SUB_ALPHABET[j], 3)))
+    return out + [c for c in R_COMPOUNDS_QUICK if c not in out]
+
+
+def reuse_calls(fns):
+    out = []
+    for fn in fns:
+        for target in ("F", "D", "S"):
+            for dk in R_DENS:
+                if (target == "D" and dk[0] == "own") or (target == "S" and dk[0] != "own"):
+                    continue        # a dictionary has no density; text with '@' and a keyword: which wins is not stated
+                for probe in R_PROBES:
+                    out.append((fn, target, dk, probe))
+    return out
+
+
+def reuse_updates(second):
+    """In-place updates by the caller that matter for the second call."""
+    _, target, dk, probe = second
+    out = [None]
+    if target == "F":
+        out.append("F.density")
+        out.append("F-derived")
+    if target == "D":
+        out.append("D-count")
+    if probe == "E-array":
+        out.append("E-array")
+    if probe == "W-array":
+        out.append("W-array")
+    return out
+
+
+def reuse_plan(quick):
+    firsts = reuse_calls(R_FIRST_FNS)
+    seconds = reuse_calls(R_SECOND_FNS)
+    hist = [(a, u, b) for a in firsts for b in seconds for u in reuse_updates(b)]
+    alone = sorted(set(firsts) | set(seconds), key=repr)
+    return alone, hist
+
+
+def _skey(structure):
+    return tuple((float(c), _skey(x) if isinstance(x, (tuple, list)) else (id(x), str(x))) for c, x in structure)
+
+
+def formula_state(f):
+    """What a caller can read of a Formula (not private attributes the library may keep on it)."""
+    return dict(structure=_skey(f.structure), density=f.density, name=f.name, text=str(f))
+
+
+class RObjects(object):
+    """Fresh caller-side objects of one history and the caller's model of them."""
+    def __init__(self, pt, consts, cmpd):
+        self.pt, self.consts = pt, consts
+        self.cd = cmpd_dict(pt, cmpd)
+        self.cd0 = dict(self.cd)
+        self.F = pt.formula(cmpd_dict(pt, cmpd), density=R_OWN)
+        self.S = cmpd_label(cmpd) + "@%r" % R_OWN
+        self.E = np.array(R_E)
+        self.W = np.array([rx.wavelength_of_energy(e, consts) for e in R_WE])
+        self.A = np.array(R_ANGLES)
+        self.own = R_OWN
+        self.counts = dict(F=tuple(cmpd), S=tuple(cmpd), D=tuple(cmpd))
+        self.e_model, self.we_model = R_E, R_WE
+        self.snap = self.state()
+
+    def state(self):
+        return dict(formula=formula_state(self.F), dict=tuple((id(k), str(k), v) for k, v in self.cd.items()),
+                    energy_array=self.E.tobytes(), wavelength_array=self.W.tobytes(), angle_array=self.A.tobytes())
+
+    def update(self, what):
+        if what == "F.density":
+            self.F.density = R_CALLER
+            self.own = R_CALLER
+        elif what == "F-derived":
+            # the caller goes on with an object derived from the one used before (n*f is made by copying f, private
+            # attributes included) and gives it a density of its own
+            g = 2 * self.F
+            want = dict((k, 2 * v) for k, v in self.cd0.items())
+            if g.atoms != want:
+                return False            # formula arithmetic is C02's business: not judged here
+            g.density = R_CALLER
+            self.F = g
+            self.own = R_CALLER
+            self.counts["F"] = tuple((a, 2 * c) for a, c in self.counts["F"])
+        elif what == "D-count":
+            k = list(self.cd)[0]
+            self.cd[k] = 2 * self.cd[k]
+            c = self.counts["D"]
+            self.counts["D"] = ((c[0][0], 2 * c[0][1]),) + c[1:]
+        elif what == "E-array":
+            self.E[:] = R_E_ALT
+            self.e_model = R_E_ALT
+        elif what == "W-array":
+            self.W[:] = [rx.wavelength_of_energy(e, self.consts) for e in R_WE_ALT]
+            self.we_model = R_WE_ALT
+        else:
+            raise MachineryError("unknown update %r" % (what,))
+        self.snap = self.state()
+        return True
+
+    def altered(self):
+        now = self.state()
+        out = []
+        for k in ("formula", "dict", "energy_array", "wavelength_array", "angle_array"):
+            if now[k] != self.snap[k]:
+                if k == "formula":
+                    k = "formula-" + "+".join(f for f in ("structure", "density", "name", "text")
+                                              if now["formula"][f] != self.snap["formula"][f])
+                out.append(k)
+        return out
+
+
+class ReuseCheck(object):
+    def __init__(self, pt, xsf, consts, cmpd, acc):
+        self.pt, self.xsf, self.consts, self.cmpd, self.acc = pt, xsf, consts, tuple(cmpd), acc
+        self.label = cmpd_label(cmpd)
+        self._ref = {}
+        self.text_ok = None
+
+    # -- model
+    def effective(self, objs, call):
+        """(composition, density, energies, fuzzy) this call is about."""
+        _, target, dk, probe = call
+        counts = objs.counts[target]
+        if dk[0] == "own":
+            rho = objs.own if target == "F" else R_OWN
+        elif dk[0] == "density":
+            rho = dk[1]
+        else:
+            m_iso = sum(c * ref_mass(self.pt, self.consts, a) for a, c in counts)
+            m_nat = sum(c * ref_mass(self.pt, self.consts, a) for a, c in natural_spec(counts))
+            rho = dk[1] * m_iso / m_nat
+        if probe == "E-scalar":
+            return counts, rho, (R_ES,), False
+        if probe == "E-array":
+            return counts, rho, tuple(objs.e_model), False
+        return counts, rho, tuple(objs.we_model), True
+
+    def reference(self, counts, rho, e, fuzzy):
+        key = (counts, rho, e, fuzzy)
+        if key not in self._ref:
+            self._ref[key] = cmpd_reference(self.pt, self.consts, counts, rho, e, fuzzy=fuzzy)
+        return self._ref[key]
+
+    # -- the real thing
+    def kwargs(self, objs, call):
+        fn, target, dk, probe = call
+        kw = {}
+        if dk[0] != "own":
+            kw[dk[0]] = dk[1]
+        if probe == "E-scalar":
+            kw["energy"] = R_ES
+        elif probe == "E-array":
+            kw["energy"] = objs.E
+        else:
+            kw["wavelength"] = objs.W
+        if fn == "mirror":
+            kw["angle"] = objs.A
+        return kw
+
+    def execute(self, objs, call):
+        fn, target = call[0], call[1]
+        arg = dict(F=objs.F, D=objs.cd, S=objs.S)[target]
+        f = dict(sld=self.xsf.xray_sld, index=self.xsf.index_of_refraction, mirror=self.xsf.mirror_reflectivity)[fn]
+        self.acc.evaluations += 1
+        with np.errstate(all="ignore"):
+            return f(arg, **self.kwargs(objs, call))
+
+    def code(self, call):
+        fn, target, dk, probe = call
+        kws = []
+        if dk[0] != "own":
+            kws.append("%s=%r" % dk)
+        kws.append("energy=%r" % R_ES if probe == "E-scalar" else "energy=E" if probe == "E-array" else "wavelength=W")
+        if fn == "mirror":
+            kws.append("angle=A")
+        name = dict(sld="xray_sld", index="index_of_refraction", mirror="mirror_reflectivity")[fn]
+        return "xsf.%s(%s, %s)" % (name, target, ", ".join(kws))
+
+    def snippet(self, calls, update=None):
+        c = self.cmpd
+        lines = ["import numpy, periodictable as pt", "from periodictable import xsf",
+                 "F = pt.formula(%s, density=%r)" % (cmpd_code(c), R_OWN), "D = %s" % cmpd_code(c),
+                 "S = %r" % (self.label + "@%r" % R_OWN),
+                 "E = numpy.array(%r); W = xsf.xray_wavelength(numpy.array(%r)); A = numpy.array(%r)"
+                 % (list(R_E), list(R_WE), list(R_ANGLES))]
+        upd = {"F.density": "F.density = %r" % R_CALLER, "F-derived": "F = 2*F; F.density = %r" % R_CALLER, "D-count": "k = list(D)[0]; D[k] = 2*D[k]",
+               "E-array": "E[:] = %r" % (list(R_E_ALT),), "W-array": "W[:] = xsf.xray_wavelength(numpy.array(%r))" % (list(R_WE_ALT),)}
+        for k, call in enumerate(calls):
+            if k == len(calls) - 1 and update:
+                lines.append(upd[update] + "          # the caller's own update")
+            lines.append("print(%s)" % self.code(call))
+            lines.append("print('   F:', F, F.density, ' D:', D, ' E:', E, ' W:', W, ' A:', A)")
+        return "\n".join(lines) + "\n"
+
+    def verdict(self, objs, call, got):
+        """None if the result is what the equations give for the composition, density and energies of this call,
+        else (what, expected, observed)."""
+        fn, probe = call[0], call[3]
+        counts, rho, Es, fuzzy = self.effective(objs, call)
+        refs = [self.reference(counts, rho, e, fuzzy) for e in Es]
+        Wl = [rx.wavelength_of_energy(e, self.consts) for e in Es]
+        scalar = probe == "E-scalar"
+        if fn == "sld":
+            if not isinstance(got, tuple) or len(got) != 2:
+                return ("form", "(rho, irho)", repr(got))
+            r, ir = [np.asarray(x, dtype=float) for x in got]
+            if (r.size != len(Es) or ir.size != len(Es)) or (not scalar and (r.shape != (len(Es),) or ir.shape != (len(Es),))):
+                return ("shape", [len(Es)], [list(r.shape), list(ir.shape)])
+            r, ir = r.reshape(-1), ir.reshape(-1)
+            for j, e in enumerate(Es):
+                if refs[j] is None:
+                    continue
+                if not any(ok1(r[j], c[0], c[2]) and ok1(ir[j], c[1], c[3]) for c in refs[j]):
+                    return ("sld", [[c[0], c[1]] for c in refs[j]], [fl(r[j]), fl(ir[j])])
+            return None
+        if fn == "index":
+            n = np.asarray(got)
+            if n.size != len(Es) or (not scalar and n.shape != (len(Es),)):
+                return ("shape", [len(Es)], list(n.shape))
+            n = n.reshape(-1)
+            EPS1 = 8 * 2.220446049250313e-16
+            for j, e in enumerate(Es):
+                if refs[j] is None:
+                    continue
+                g = complex(n[j])
+                k = Wl[j] * Wl[j] / (2 * PI) * 1e-6
+                good = False
+                for c in refs[j]:
+                    want, dl, be = rx.index_reference(Wl[j], c[0], c[1])
+                    if want.real != want.real:
+                        good = good or g.real != g.real
+                    else:
+                        good = good or (abs(g.real - want.real) <= TOL * max(dl, k * c[2]) + EPS1 and
+                                        abs(g.imag - want.imag) <= TOL * max(be, k * c[3]) + 1e-300)
+                if not good:
+                    return ("index", fl(rx.index_reference(Wl[j], refs[j][0][0], refs[j][0][1])[0]), fl(g))
+            return None
+        # mirror: inside [0, 1] wherever the SLD is a number, and equal to the same question asked with fresh,
+        # equal objects (dictionary, explicit density, fresh arrays)
+        R = np.asarray(got, dtype=float)
+        if R.shape != (len(R_ANGLES), len(Es)):
+            return ("shape", [len(R_ANGLES), len(Es)], list(R.shape))
+        fresh_kw = dict(angle=np.array(R_ANGLES), density=rho)
+        if probe == "W-array":
+            fresh_kw["wavelength"] = np.array(Wl)
+        else:
+            fresh_kw["energy"] = np.array(Es)
+        self.acc.evaluations += 1
+        with np.errstate(all="ignore"):
+            Rf = np.asarray(self.xsf.mirror_reflectivity(cmpd_dict(self.pt, counts), **fresh_kw), dtype=float)
+        for j, e in enumerate(Es):
+            fin = refs[j] is not None and all(c[0] == c[0] for c in refs[j])
+            for i in range(len(R_ANGLES)):
+                v, w = float(R[i, j]), float(Rf[i, j])
+                if fin and not (0 <= v <= 1 + 1e-12):
+                    return ("mirror-outside-[0,1]", "0 <= R <= 1", v)
+                same = (v != v and w != w) or abs(v - w) <= 1e-9 * max(abs(v), abs(w)) + 1e-13
+                if not same:
+                    return ("mirror-differs-from-fresh-objects", w, v)
+        return None
+
+    def run_call(self, objs, call, case, before, update, signature):
+        """Execute one call of a history: the caller's objects must come back as they went in, and the result must
+        be right for this call.  Returns False after a violation."""
+        acc = self.acc
+        acc.transitions += 1
+        try:
+            got, err = self.execute(objs, call), None
+        except Exception as e:
+            got, err = None, exc(e)
+        changed = objs.altered()
+        if changed:
+            what = changed[0]
+            passed = dict(F="formula", D="dict", S="text")[call[1]]
+            which = "passed" if what.startswith(passed) else "argument" if what.endswith("array") else "other"
+            sig = ("argument-altered:%s" % what if which == "argument"
+                   else "argument-altered:%s-%s:density-keyword=%s" % (which, what, call[2][0]))
+            acc.violation(sig, case,
+                          expected="the caller's objects as they were", observed="changed: %s" % ", ".join(changed),
+                          standalone=self.snippet(before + [call], update))
+            return False
+        if err is not None:
+            acc.violation(signature, dict(case, part="raises"), "a result", err, standalone=self.snippet(before + [call], update))
+            return False
+        bad = self.verdict(objs, call, got)
+        if bad is not None:
+            acc.violation(signature, dict(case, part=bad[0]), _san(bad[1]), _san(bad[2]),
+                          standalone=self.snippet(before + [call], update))
+            return False
+        return True
+
+    def usable(self, objs, call):
+        """Text is only in the alphabet if the parser reads it as the compound meant (reading it is C01's business)."""
+        if call[1] != "S":
+            return True
+        if self.text_ok is None:
+            try:
+                f = self.pt.formula(objs.S)
+                self.text_ok = (f.atoms == cmpd_dict(self.pt, self.cmpd) and f.density == R_OWN)
+            except Exception:
+                self.text_ok = False
+            if not self.text_ok:
+                self.acc.count("reuse_text_form_not_read_as_meant_not_judged")
+        return self.text_ok
+
+    def case(self, first, update, second):
+        c = dict(unit="reuse", compound=[[list(a), n] for a, n in self.cmpd], label=self.label)
+        if first is not None:
+            c["first"] = _call_json(first)
+        if update:
+            c["update"] = update
+        c["second"] = _call_json(second)
+        return c
+
+    def single(self, call):
+        objs = RObjects(self.pt, self.consts, self.cmpd)
+        if not self.usable(objs, call):
+            return True
+        self.acc.states += 1
+        self.acc.nontrivial += 1
+        return self.run_call(objs, call, self.case(None, None, call), [], None,
+                             "single-call:%s:%s/%s" % (call[0], dict(F="formula-object", D="dict", S="text")[call[1]],
+                                                       call[2][0] + "-density"))
+
+    def history(self, first, update, second):
+        objs = RObjects(self.pt, self.consts, self.cmpd)
+        if not (self.usable(objs, first) and self.usable(objs, second)):
+            return True
+        acc = self.acc
+        acc.states += 1
+        acc.nontrivial += 1
+        case = self.case(first, update, second)
+        if not self.run_call(objs, first, case, [], None, "reuse:first-call-differs-from-the-call-alone"):
+            return False
+        if update and not objs.update(update):
+            acc.count("reuse_histories_update_not_applicable_not_judged")
+            return True
+        diff = [n for n, a, b in zip(("fn", "object", "density", "probe"), first, second)
+                if a != b and n in ("object", "density")]
+        sig = "reuse:result-depends-on-earlier-call:differs-in=%s%s" % (
+            "+".join(diff) or "nothing", ":after-caller-updates-%s" % update if update else "")
+        ok = self.run_call(objs, second, case, [first], update, sig)
+        if ok:
+            acc.outcome("reuse:%s-after-%s:ok" % (second[0], first[0]))
+        return ok
+
+
+def _call_json(call):
+    return [call[0], call[1], list(call[2]), call[3]]
+
+
+def _call_from_json(j):
+    return (j[0], j[1], (j[2][0], j[2][1]), j[3])
+
+
+def reuse_alone_shard(arg):
+    """Every call of the alphabet ALONE, each in its own fork of this worker (which has not calculated anything):
+    nothing an earlier call left behind can be involved.  Returns (compound index, calls wrong alone, Acc)."""
+    k, cmpd, quick = arg
+    alone, _ = reuse_plan(quick)
+    acc = Acc()
+    bad = []
+    for call in alone:
+        def one(call=call):
+            a = Acc()
+            pt, xsf, consts, _cm = _env()
+            return ReuseCheck(pt, xsf, consts, cmpd, a).single(call), _clean(a)
+        ok, a = in_fork(one)
+        acc.merge(a)
+        if not ok:
+            bad.append(call)
+    acc.count("reuse_calls_alone", len(alone))
+    return k, bad, acc
+
+
+def reuse_shard(arg):
+    """A part of the histories of one compound; calls that are wrong alone are not used; the worker stops at its
+    first violation (whatever was left behind may be anywhere in this process)."""
+    cmpd, quick, part, nparts, alone_bad = arg
+    acc = Acc()
+    pt, xsf, consts, _cm = _env()
+    rc = ReuseCheck(pt, xsf, consts, cmpd, acc)
+    _, hist = reuse_plan(quick)
+    bad = set(alone_bad)
+    for first, update, second in hist[part::nparts]:
+        if first in bad or second in bad:
+            acc.count("reuse_histories_skipped_call_wrong_alone")
+            continue
+        if not rc.history(first, update, second):
+            break
+    if part == 0:
+        acc.sample(dict(unit="reuse", label=rc.label, histories=len(hist)))
+        acc.count("reuse_compounds")
+    return acc
+
+
 # ------------------------------------------------------------------------------------- driver
 def run(ctx):
     quick = ctx.quick
@@ -975,8 +1471,18 @@ def run(ctx):
         for k in ("compound", "f0", "table"):
             if kinds.get(k):
                 mixed.append(kinds[k].pop(0))
-    ctx.pmap(_dispatch, mixed)
+    rcs = reuse_compounds(quick)
+    mixed = [("reuse-alone", (k, c, quick)) for k, c in enumerate(rcs)] + mixed
+    res = ctx.pmap(_dispatch, mixed)
+    bad = {}
+    for r in res:
+        if isinstance(r, tuple):
+            bad[r[0]] = r[1]
+            ctx.acc.merge(r[2])
+    nparts = 4
+    ctx.pmap(_dispatch, [("reuse", (c, quick, p, nparts, bad[k])) for p in range(nparts) for k, c in enumerate(rcs)])
     acc = ctx.acc
+    acc.info["max_reuse_histories_per_compound"] = len(reuse_plan(quick)[1])
     acc.traces = acc.transitions
     acc.info["max_tables"] = len(T)
     acc.info["max_f0_entries_in_file"] = len(ents)
@@ -1015,6 +1521,11 @@ def _dispatch(job):
         return _clean(table_shard(arg))
     if kind == "f0":
         return _clean(f0_shard(arg))
+    if kind == "reuse-alone":
+        k, bad, acc = reuse_alone_shard(arg)
+        return k, bad, _clean(acc)
+    if kind == "reuse":
+        return _clean(reuse_shard(arg))
     return _clean(compound_shard(arg))
 
 
@@ -1041,6 +1552,15 @@ def replay(ctx, case, signature=None):
             compound_unit(cmpd, pt, xsf, consts, tier, acc, set())
             if not signature or signature in acc.viol:
                 break
+    elif unit == "reuse":
+        cmpd = tuple(((a[0], a[1], a[2]), c) for a, c in case["compound"])
+        pt, xsf, consts, _cm = _env()
+        rc = ReuseCheck(pt, xsf, consts, cmpd, acc)
+        second = _call_from_json(case["second"])
+        if case.get("first") is None:
+            rc.single(second)
+        else:
+            rc.history(_call_from_json(case["first"]), case.get("update"), second)
     else:
         raise MachineryError("unknown replay unit %r" % unit)
     for sig, rec in _clean(acc).viol.items():
